@@ -931,7 +931,8 @@ impl Parser {
                 self.advance();
             }
             while self.next_matches(&TokenEnum::Comma).is_some() || clause_ended_with_brace {
-                if self.peek(&TokenEnum::RightBrace) {
+                // (at the end of the input there is no further clause to parse)
+                if self.peek(&TokenEnum::RightBrace) || self.tokens.peek().is_none() {
                     break;
                 }
                 if let Ok((clause, ends_with_brace)) = self.parse_match_clause() {
